@@ -125,7 +125,15 @@ def job_shift_nominal(ctx, mode, fmt, reps, iv, unit, lo, hi, rep="cal", ranges=
             return [("no exception", False)]
         o = out[1]
         r, m = o["r"], o["moved"]
-        obs = [("same repetitions", m._repetitions == r._repetitions)]
+        if fmt == 1 and m._repetitions != r._repetitions:
+            # start/end notation: when clamping makes the two moved anchors coincide (day 366 -> 365, 31st -> 30th), the
+            # recurrence denotes a single point and the constructor writes that as one repetition (its canonical form
+            # for identical anchors); any other change of the repetition count is a violation
+            w1, w2 = o["want"]["_start_point"], o["want"]["_second_point"]
+            obs = [("repetitions change only when the moved anchors coincide (then: 1)",
+                    z3.And(z3.BoolVal(m._repetitions == 1), same_point_z3(w1, w2)))]
+        else:
+            obs = [("same repetitions", m._repetitions == r._repetitions)]
         if fmt != 1:
             obs.append(("same interval", same_dur_z3(m._duration, r._duration)))
         for name, want in o["want"].items():
@@ -347,7 +355,9 @@ def _replay_shift_nominal(case, data, mode):
     names = {1: ("_start_point", "_second_point"), 3: ("_start_point",), 4: ("_end_point",)}[fmt]
     for lab, z in (("r + d", r + s), ("d + r", s + r), ("r - (-d)", r - neg)):
         if z._repetitions != r._repetitions:
-            return True, "%s + %s = %s: repetitions changed" % (r, s, z)
+            coincide = fmt == 1 and str(r._start_point + s) == str(r._second_point + s)
+            if not (coincide and z._repetitions == 1):
+                return True, "%s + %s = %s: repetitions changed" % (r, s, z)
         if fmt != 1 and z._duration != r._duration:
             return True, "%s + %s = %s: interval changed" % (r, s, z)
         for name in names:
